@@ -93,6 +93,47 @@ def c_next(ex, st, args, path, callee):
     return [('ret', SOME(materialise(ex, mem, items[i])), path, mem)]
 
 
+def c_position(ex, st, args, path, callee):
+    """Iterator::position(closure): the repository closure is run on each pending item until it answers true"""
+    items = pending(args[0]) if not isinstance(args[0], Ref) else pending(ex.read_ref(st['mem'], args[0]))
+    f = ex.find_closure(callee)
+    out = []
+    frontier = [(path, st['mem'])]
+    for i, item in enumerate(items):
+        nxt = []
+        for p, mem in frontier:
+            mem2 = dict(mem)
+            arg = materialise(ex, mem2, item)
+            ex._tmp = getattr(ex, '_tmp', 0) + 1
+            key = ('tmp', ex._tmp, 'clo')
+            mem2[key] = args[1]
+            for v, p2, m2 in ex.run(f, [Ref(key), arg], p, 1, (), mem2):
+                pt = p2.add(v)
+                if ex.feasible(pt.conds):
+                    out.append(('ret', SOME(z3.IntVal(i)), pt, m2))
+                pf = p2.add(z3.Not(v))
+                if ex.feasible(pf.conds):
+                    nxt.append((pf, m2))
+        frontier = nxt
+    for p, mem in frontier:
+        out.append(('ret', NONE(), p, mem))
+    return out
+
+
+def c_get_usize(ex, st, args, path, callee):
+    sl = d(ex, args[0])
+    i = concrete(args[1])
+    if i is None or sl.elems is None:
+        raise Unsupported('slice get with symbolic index')
+    if i >= len(sl.elems):
+        return ret(NONE(), path)
+    mem = dict(st['mem'])
+    ex._tmp = getattr(ex, '_tmp', 0) + 1
+    key = ('tmp', ex._tmp, 'elem')
+    mem[key] = sl.elems[i]
+    return [('ret', SOME(Ref(key)), path, mem)]
+
+
 def c_slice_len(ex, st, args, path, callee):
     return ret(d(ex, args[0]).length, path)
 
@@ -108,4 +149,6 @@ ITER = [
     ('Iterator::take(n): case split on n', r' as Iterator>::take$', c_skip_take('take')),
     ('IntoIterator::into_iter', r' as IntoIterator>::into_iter$', c_into_iter),
     ('Iterator::next on a sequence iterator', r' as Iterator>::next$', c_next),
+    ('Iterator::position (runs the repository closure)', r' as Iterator>::position::<', c_position),
+    ('[T]::get(usize)', r'slice::<impl \[.*\]>::get::<usize>$', c_get_usize),
 ]
